@@ -64,6 +64,7 @@ def run(chk):
             cases.append((tmpl % c, "edge-char"))
         cases.append(("<a>&#x%X;</a>" % cp, "edge-char"))
         cases.append(("<a b='&#%d;'/>" % cp, "edge-char"))
+    cases += [(t, "interaction") for t in X.interaction_texts()]
     cases = [(t, w) for t, w in cases if "\x00" not in t]
     lines = [lib.req("pipeline", t) for t, _ in cases]
     impl = lib.run_lines(h, lines, timeout=per_line * 30, per_line_resume=True)
